@@ -272,7 +272,7 @@ def data_malformed(payload, recv=512):
     return None
 
 
-def c14_oracle(run, corr, deep, n_quick=120, n_thorough=3000):
+def c14_oracle(run, corr, deep, n_quick=1500, n_thorough=30000):
     """metamorphic oracle on the real code: a history with malformed datagrams must behave, on all
     other operations and in the final state, exactly like the same history without them; malformed
     ones are ignored or answered with an error status; no exception ever escapes."""
@@ -420,7 +420,7 @@ def _parse_race(obs):
     return fwd, calls, stale, excs, points, dg
 
 
-def sched_oracle(run, corr, deep, n_quick=25, n_thorough=400):
+def sched_oracle(run, corr, deep, n_quick=200, n_thorough=4000):
     """every interleaving position of ONE socket-thread operation against ONE tick, on the real objects:
     no exception in either thread; bursts are forwarded only in their own frame and at most once;
     without a power-off of the sender nothing vanishes (accepted = forwarded + stale + still queued);
